@@ -32,7 +32,7 @@ RULE = (
     "would create a canary file if evaluated; (ii) corpus programs (README-style scripts, stdlib-flavoured Python) mutated by line deletion/duplication/"
     "indent shifts/token swaps, kept only if ast.parse accepts them; (iii) random text/bytes decoded as UTF-8 (surrogateescape and replace), plus an atheris "
     "campaign when available. Each case runs in a supervised child: sys.addaudithook armed around parse/emit, canary check, exception type check, soft "
-    "os.environ / os.getcwd replaced by recording stand-ins while a script is transpiled (any look-up is an environment access), RLIMIT_CPU advanced per case (10 s), peak-memory growth per case <= 300 MB, module-state fingerprint; one hostile case in eight is an amplification history (seed constant + k <= 40 self-amplifying re-assignments: x = x * x, x = x ** 64, s = s + s, nested power towers left and right). Non-trivial = the input reached _eval_const/_to_c_expr (got past the regex dispatch). "
+    "os.environ / os.getcwd replaced by recording stand-ins while a script is transpiled (any look-up is an environment access), RLIMIT_CPU advanced per case (10 s), peak-memory growth per case <= 300 MB, module-state fingerprint; one hostile case in eight is a header-stress case (block headers / calls with a 20-70 character plain or dotted name and a tail the supported form lacks: catastrophic regex backtracking), one in eight is an amplification history (seed constant + k <= 40 self-amplifying re-assignments: x = x * x, x = x ** 64, s = s + s, nested power towers left and right). Non-trivial = the input reached _eval_const/_to_c_expr (got past the regex dispatch). "
     "distinct = distinct text."
 )
 ASSUMPTIONS = [
@@ -375,9 +375,44 @@ def amplify_case(draw):
 
 
 @st.composite
+def header_stress_case(draw):
+    """block headers and calls the line-based recognisers almost accept: a long (dotted) name followed by a tail the supported form does not
+    have - the shape on which a regular expression with nested repetition backtracks exponentially"""
+    n = draw(st.integers(20, 70))
+    kind = draw(st.sampled_from(["plain", "dotted", "under", "digits"]))
+    if kind == "plain":
+        name = "a" * n
+    elif kind == "dotted":
+        name = ".".join(["seg" + "x" * draw(st.integers(1, 6)) for _ in range(max(2, n // 6))])
+    elif kind == "under":
+        name = "_".join(["ab"] * (n // 3))
+    else:
+        name = "v" + "1" * n
+    tail = draw(st.sampled_from(["", " as e", " if strict else Exception", " or Other", ", e", " as", "  as  e  ", "()", " as e as f", " !", " .", "..", " :", "\t#c"]))
+    form = draw(st.sampled_from(["except", "except", "elif", "if", "while", "for", "def", "call", "target", "import", "with", "assign"]))
+    body = {
+        "except": f"try:\n    led.on()\nexcept {name}{tail}:\n    led.off()",
+        "elif": f"if x > 1:\n    led.on()\nelif {name}{tail}:\n    led.off()",
+        "if": f"if {name}{tail}:\n    led.on()",
+        "while": f"while {name}{tail}:\n    led.on()",
+        "for": f"for {name} in range(3){tail}:\n    led.on()",
+        "def": f"def {name}({name}x{tail}):\n    return 1",
+        "call": f"led.blink({name}{tail}, {name})",
+        "target": f"target('{name}'{tail})",
+        "import": f"from {name} import {name}{tail}",
+        "with": f"with {name}{tail}:\n    led.on()",
+        "assign": f"{name}{tail} = {name}",
+    }[form]
+    return PRELUDE + "x = 2\n" + body + "\n"
+
+
+@st.composite
 def hostile_case(draw):
-    if draw(st.integers(0, 7)) == 0:
+    pick = draw(st.integers(0, 7))
+    if pick == 0:
         return draw(amplify_case())
+    if pick == 1:
+        return draw(header_stress_case())
     tmpl = draw(st.sampled_from(TEMPLATES))
     pool = hostile_pool("CANARY_PATH")
     safe_fill = ["1", "13", "x", "'s'", "True", "[1, 0]", "led"]
